@@ -800,4 +800,8 @@ def units(tier):
     # "with compression on and off": the packets reach the reactor only if the reader accepts the frames of ANY conforming
     # peer (a vanilla server compresses from size >= threshold) - the same frame contract as C01/C10, claimed here too
     fr.prop, fr.name = 'C11', 'C11.frames.any-conforming-peer'
-    return [PlaySteps(), KeepAliveWire(), PopPacket(), RunLoop(), HandleExit(), fr]
+    from . import c13
+    tr = c13.PacketTruthiness()
+    # the read loop takes a false value for "nothing read": every packet object (keep-alives included) must be true
+    tr.prop, tr.name = 'C11', 'C11.packets-are-true'
+    return [PlaySteps(), KeepAliveWire(), PopPacket(), RunLoop(), HandleExit(), fr, tr]
